@@ -73,7 +73,7 @@ def _run_one(idx):
                 else:
                     res = symx.explore(ob.fn, max_paths=ob.max_paths, max_seconds=ob.budget_s, stop_on_violation=False, seed=_SEED, max_decisions=ob.max_decisions)
             r = res.as_dict()
-            r["shims"] = {m.__name__: (sorted(n) if not isinstance(n, dict) else sorted(n)) for m, n in spec.items()}
+            r["shims"] = {m.__name__: sorted((x if isinstance(x, str) else x[0]) for x in n) for m, n in spec.items()}
     except BaseException as exc:  # machinery failure
         r = {"status": "error", "error": "%s: %s" % (type(exc).__name__, exc), "tb": traceback.format_exc(), "paths": 0, "paths_with_checks": 0, "violations": [], "inconclusive": [], "samples": [], "solver_time": 0.0, "queries": 0, "exhaustive": False, "format_sites": 0, "infeasible": 0}
     r["id"] = ob.id
